@@ -1,16 +1,16 @@
 SPECIFICATION Spec
 CONSTANTS
-  Inst = {a, b, c}
+  Inst = {a, b}
   Sh = {1}
   MaxClaims = 3
   MaxDup = 1
   MaxSnap = 0
   AllowLeave = FALSE
-  AllowRelease = FALSE
+  AllowRelease = TRUE
   TsFix = TRUE
   Late = {}
   NeedKnown = FALSE
-  SplitDeliver = FALSE
-  GuardedEvict = TRUE
+  SplitDeliver = TRUE
+  GuardedEvict = FALSE
 INVARIANTS SingleNewestOwner
 CHECK_DEADLOCK FALSE
